@@ -198,7 +198,10 @@ def run_regressions(focus):
 
 # ---------------------------------------------------------------------------- evidence
 def write_evidence(focus, tier, vseed, level, total, extra):
-    os.makedirs(os.path.join(ROOT, 'evidence'), exist_ok=True)
+    evdir = os.path.join(ROOT, 'evidence')
+    if os.path.realpath(REPO) != '/repo':
+        evdir = os.path.join(ROOT, 'evidence', '.scratch')      # experiments on scratch checkouts never touch the evidence
+    os.makedirs(evdir, exist_ok=True)
     cov = {
         'evaluations': int(total['evals']),
         'distinct_nontrivial': len(total['trans']),
@@ -219,7 +222,7 @@ def write_evidence(focus, tier, vseed, level, total, extra):
         'property_id': focus, 'tier': tier, 'seed': vseed, 'level': level, 'coverage': cov,
         'assumptions': ASSUMPTIONS, 'wall_s': round(total['wall'], 2), 'violations': len(total['viols']),
     }
-    with open(os.path.join(ROOT, 'evidence', focus + '.json'), 'w') as f:
+    with open(os.path.join(evdir, focus + '.json'), 'w') as f:
         json.dump(ev, f, indent=1, default=repr)
 
 
@@ -373,8 +376,12 @@ def main(argv=None):
     total['wall'] = time.time() - t0
     extra = dict(spec.get('evidence', {}))
     extra['hashseeds'] = ['0'] + [str(hs) for hs, _, _ in sub]
-    extra.setdefault('rule', 'seeded class-directed histories; distinct = distinct (model state digest, '
-                             'operation class) transitions after which the focused oracle was evaluated')
+    from . import manifest_data
+    extra.setdefault('rule', manifest_data.RULES.get(focus, '') + ' A case = one simulated run (a concrete operation + '
+                             'fault history, or one fault-placement variant of it); evaluations = elementary oracle '
+                             'comparisons made; distinct_nontrivial = number of distinct (model-state digest, operation '
+                             'class) transitions on a non-empty world after which the focused oracle was evaluated, '
+                             'counted with a set, not estimated.')
     extra['known_findings_printed'] = known
     extra['reach_probes'] = {r: total['stats'].get(r, 0) for r in engine.REACH.get(focus, [])}
     extra['regression_replays_run'] = getattr(run_regressions, 'count', 0)
